@@ -98,6 +98,3 @@ Section Answer.
     end.
 End Answer.
 
-(* tree-event side condition lifted to C14 histories *)
-Definition tree_ok (P : state -> event -> bool) (s : state) (e : ev14) : bool :=
-  match e with Tree te => P s te | _ => true end.
